@@ -1,0 +1,123 @@
+//! Verification hooks (only compiled with `--features verif_hooks`).
+//!
+//! Two facilities, both inert unless the corresponding environment variable is set:
+//!
+//! * `event(kind, fields)` appends one JSON line (sequence number, CLOCK_MONOTONIC
+//!   nanoseconds, kind, fields) to the file named by `PGCAT_VERIF_EVENTS`.
+//! * `point(name).await` is a schedule-perturbation point. With
+//!   `PGCAT_VERIF_JITTER=<seed>:<max_us>[:<name-prefix>]` it yields or sleeps for a
+//!   pseudo-random time derived from (seed, name, hit count); otherwise it returns at once.
+//!
+//! Neither changes control flow of the pooler.
+
+use once_cell::sync::Lazy;
+use std::fs::{File, OpenOptions};
+use std::io::Write;
+use std::sync::atomic::{AtomicU64, Ordering};
+
+static SEQ: AtomicU64 = AtomicU64::new(0);
+static HITS: AtomicU64 = AtomicU64::new(0);
+
+static SINK: Lazy<Option<parking_lot::Mutex<File>>> = Lazy::new(|| {
+    std::env::var("PGCAT_VERIF_EVENTS").ok().and_then(|path| {
+        OpenOptions::new()
+            .create(true)
+            .append(true)
+            .open(path)
+            .ok()
+            .map(parking_lot::Mutex::new)
+    })
+});
+
+struct Jitter {
+    seed: u64,
+    max_us: u64,
+    prefix: String,
+}
+
+static JITTER: Lazy<Option<Jitter>> = Lazy::new(|| {
+    let spec = std::env::var("PGCAT_VERIF_JITTER").ok()?;
+    let mut parts = spec.splitn(3, ':');
+    let seed = parts.next()?.parse::<u64>().ok()?;
+    let max_us = parts.next()?.parse::<u64>().ok()?;
+    let prefix = parts.next().unwrap_or("").to_string();
+    Some(Jitter {
+        seed,
+        max_us,
+        prefix,
+    })
+});
+
+/// CLOCK_MONOTONIC in nanoseconds (shared with other processes on this machine).
+pub fn now_ns() -> u64 {
+    match nix::time::clock_gettime(nix::time::ClockId::CLOCK_MONOTONIC) {
+        Ok(ts) => (ts.tv_sec() as u64) * 1_000_000_000 + ts.tv_nsec() as u64,
+        Err(_) => 0,
+    }
+}
+
+/// Are events being recorded?
+pub fn enabled() -> bool {
+    SINK.is_some()
+}
+
+/// Record an event. `fields` must be the inside of a JSON object (may be empty).
+pub fn event(kind: &str, fields: &str) {
+    if let Some(sink) = SINK.as_ref() {
+        let seq = SEQ.fetch_add(1, Ordering::SeqCst);
+        let line = if fields.is_empty() {
+            format!("{{\"seq\":{},\"t\":{},\"k\":\"{}\"}}\n", seq, now_ns(), kind)
+        } else {
+            format!(
+                "{{\"seq\":{},\"t\":{},\"k\":\"{}\",{}}}\n",
+                seq,
+                now_ns(),
+                kind,
+                fields
+            )
+        };
+        let mut file = sink.lock();
+        let _ = file.write_all(line.as_bytes());
+    }
+}
+
+fn mix(mut x: u64) -> u64 {
+    x ^= x >> 30;
+    x = x.wrapping_mul(0xbf58476d1ce4e5b9);
+    x ^= x >> 27;
+    x = x.wrapping_mul(0x94d049bb133111eb);
+    x ^= x >> 31;
+    x
+}
+
+/// Schedule perturbation point.
+pub async fn point(name: &str) {
+    let jitter = match JITTER.as_ref() {
+        Some(jitter) => jitter,
+        None => return,
+    };
+
+    if !name.starts_with(jitter.prefix.as_str()) {
+        return;
+    }
+
+    let hit = HITS.fetch_add(1, Ordering::Relaxed);
+    let mut h = jitter.seed ^ hit.wrapping_mul(0x9e3779b97f4a7c15);
+    for b in name.bytes() {
+        h = mix(h ^ b as u64);
+    }
+    h = mix(h);
+
+    match h % 4 {
+        0 => (),
+        1 => tokio::task::yield_now().await,
+        _ => {
+            let us = if jitter.max_us == 0 {
+                0
+            } else {
+                (h >> 8) % (jitter.max_us + 1)
+            };
+            tokio::time::sleep(std::time::Duration::from_micros(us)).await;
+        }
+    }
+}
